@@ -486,6 +486,41 @@ def gen_c07_hold_cases(seed, ncases):
     return cases
 
 
+def gen_c07_late_cases(seed, ncases):
+    """A proposal that times out (ProposalTimeout = 3 s of virtual time) while its commit is only held:
+    the commit is released at offsets around the time-out instant -- before, exactly at, just after
+    (while the ERR reply is being written to a client that has not read yet: 'L <ms>' = slow reader),
+    long after -- and the SAME connection then issues further commands, some with held commits of
+    their own ('H <ms>' = the client reads at once)."""
+    r = random.Random(seed * 179424673 + 11)
+    T = HOLD_TIMEOUT_MS
+    offs = [T - 600, T - 1, T + 1, T + 2, T + 300, T + 1500, 3 * T]     # not T itself: timer and result at one instant is a coin toss
+    cases = []
+    for i in range(ncases):
+        c = Case("c07l_%d_%d" % (seed, i))
+        k = i % PAR_CONNS
+        n, st, l = b"L%d:n" % k, b"L%d:s" % k, b"L%d:l" % k
+        c.lines.append("H 0")
+        for _ in range(r.randrange(0, 3)):
+            c.cmd(pick(r, [[b"incr", n], [b"rpush", l, b"w"], [b"set", st, b"s"]]), conn=k)
+        for rd in range(r.randrange(1, 3)):
+            c.lines.append("L %d" % offs[(i + rd) % len(offs)])
+            c.cmd(pick(r, [[b"incr", n], [b"append", st, b"ab"], [b"rpush", l, b"late"], [b"incrby", n, b"10"]]), conn=k)
+            if r.random() < 0.3:      # another connection had a command in the same held round
+                c.cmd([b"incr", b"L%d:n" % ((k + 1) % PAR_CONNS)], conn=(k + 1) % PAR_CONNS)
+            c.lines.append("H 0")
+            c.cmd([b"get", b"never:written"], conn=k)
+            c.cmd([b"get", n], conn=k)
+            c.lines.append("H %d" % pick(r, [1000, 500, 2000]))
+            c.cmd(pick(r, [[b"set", b"L%d:k" % k, b"v%d" % rd], [b"incr", n], [b"lpush", l, b"x"]]), conn=k)
+            c.lines.append("H 0")
+            for cmd in r.sample([[b"get", b"L%d:k" % k], [b"get", st], [b"lrange", l, b"0", b"-1"], [b"get", n], [b"strlen", st], [b"ping", b"tok%d" % i]], 3):
+                c.cmd(cmd, conn=k)
+        c.dump()
+        cases.append(c)
+    return cases
+
+
 TIMED = {b"expire", b"setex", b"ttl", b"blpop", b"brpop", b"persist"}
 
 
